@@ -319,6 +319,10 @@ class Pipe:
     def op_set_rate(self, fac):
         """assign a new sample rate to the CURRENT object through its public setter (per-object caches of dt etc. must follow)"""
         newq = self.z.sample_rate * fac
+        if not (F(1, 1000) <= O.hz(newq) <= F(10) ** 10):
+            # the property quantifies over rates from mHz to GHz; beyond ~10 GHz one sample is shorter than the resolution of a Time
+            self.st.label("skip_set_rate_out_of_range")
+            return
         with lib("sample_rate assignment"):
             self.z.sample_rate = newq
             if self.spec["cls"] in G.BASEBAND:
